@@ -155,9 +155,9 @@ type World struct {
 	Replicas []*Replica
 	Gateways []*Gateway
 
-	mu      sync.Mutex
-	dead    map[string]bool
-	cutAPI  map[string]bool
+	mu        sync.Mutex
+	dead      map[string]bool
+	cutAPI    map[string]bool
 	start     time.Time
 	service   string
 	leadSince map[string]time.Duration
